@@ -52,6 +52,7 @@ struct Agg {
     violating_runs: BTreeMap<String, u64>,
     other_props: BTreeMap<String, (u64, String)>,
     harness_errors: Vec<String>,
+    harness_error_count: u64,
     diverged: u64,
     digests: Vec<(u64, u64)>,
 }
@@ -155,6 +156,7 @@ pub fn run_batch(ctx: &Ctx, cfg: &BatchCfg) -> BatchResult {
                         a.samples.push(json!({"index": i, "run_seed": run_seed, "case": case, "schedule": {"seed": spec.seed, "strategy": spec.strategy}, "transcript_head": head, "steps": rep.stats.steps, "context_switches": rep.stats.switches}));
                     }
                     if let Some(e) = &rep.harness_error {
+                        a.harness_error_count += 1;
                         if a.harness_errors.len() < 10 {
                             a.harness_errors.push(format!("run {} (seed {}): {}", i, run_seed, e));
                         }
@@ -190,11 +192,16 @@ pub fn run_batch(ctx: &Ctx, cfg: &BatchCfg) -> BatchResult {
     for (sig, (n, what)) in &a.known_hits {
         println!("KNOWN-FINDING: property={} {} ({}; seen in {} runs)", cfg.prop, sig, what, n);
     }
-    if !a.harness_errors.is_empty() {
+    // A generated workload that outgrows its caps before anything was asked of the engine
+    // is discarded, not judged; it is reported, and fatal only when it is not rare.
+    if a.harness_error_count > 0 {
         for e in &a.harness_errors {
-            eprintln!("HARNESS-ERROR: {}", e);
+            eprintln!("[wsim] discarded run: {}", e);
         }
-        exit = 2;
+        if a.harness_error_count * 200 > a.evaluations.max(1) {
+            eprintln!("HARNESS-ERROR: {} of {} runs were discarded (more than 0.5%)", a.harness_error_count, a.evaluations);
+            exit = 2;
+        }
     }
     // minimise and persist what was found
     let mut replay_paths = Vec::new();
@@ -251,7 +258,8 @@ pub fn run_batch(ctx: &Ctx, cfg: &BatchCfg) -> BatchResult {
                 "known_findings_seen": a.known_hits.iter().map(|(k, v)| json!({"signature": k, "runs": v.0})).collect::<Vec<_>>(),
                 "violations_of_other_properties_seen": a.other_props.iter().map(|(k, v)| json!({"signature": k, "runs": v.0, "example": v.1})).collect::<Vec<_>>(),
                 "replay_files": replay_paths,
-                "harness_errors": a.harness_errors,
+                "discarded_runs": a.harness_error_count,
+                "discarded_run_examples": a.harness_errors,
                 "real_code": ["weechess-core (all of it)", "weechess-engine: searcher.rs, uci.rs, eval/*, book.rs, embedded opening book"],
                 "stubs": ["rayon (one simulated task per item)", "std::sync / std::thread (shuttle, sequentially consistent)", "clock and sleep (simulated)", "stdin / stdout / stderr (simulated)", "rand::thread_rng (seeded)", "weechess-cli main.rs not executed"],
                 "exhaustive": false
